@@ -316,6 +316,148 @@ theorem C15_hist_backoff (s : HSt) (hwf : WF s) (c : Chan) (letters : List Byte)
   subst this
   exact ⟨hre, hdue2⟩
 
+/-- **Well-formedness is an invariant of EVERY history**: whatever step is taken (file creation from outside,
+pqstart, clock change, ALRM, wake-up, pqfinish, a pass with any reports and any injected failure), the heaps
+stay heaps, message ids stay unique per channel, and every scheduled entry has its channel file. -/
+theorem C15_hist_wf (s : HSt) (x : Step) (hwf : WF s) : WF (step s x).1 := by
+  cases x with
+  | mk id c birth due nrec => exact wf_mk hwf id c birth due nrec
+  | load => exact wf_loadSt hwf.nodupMsgs
+  | clock t => exact wf_clock hwf t
+  | alrm => exact wf_alrmSt hwf
+  | wake => exact hwf
+  | fin => exact wf_finSt hwf
+  | pass c l f => exact wf_passSt hwf c l f
+  | bad => exact hwf
+
+/-- … hence over every history from a well-formed state (the empty queue is one). -/
+theorem C15_hist_wf_run (l : List Step) : ∀ s : HSt, WF s → WF (run s l) := by
+  induction l with
+  | nil => intro s h; exact h
+  | cons x r ih => intro s h; exact ih _ (C15_hist_wf s x h)
+
+/-- **Nothing is lost** (pqdone bookkeeping, markdone effects): `pqstart` schedules every channel file and puts
+every message without channel files into pqdone; from then on every step of a running daemon — clock change,
+wake-up, ALRM, a pass with ANY reports and ANY injected failure (open/getinfo trouble, unlink failure, stat
+failure) — keeps every existing channel file scheduled on its channel heap and every message without channel
+files in pqdone.  (pqfinish empties the heaps on purpose; `C15_hist_restart` covers TERM + restart.) -/
+theorem C15_hist_noloss (s : HSt) (hwf : WF s) :
+    Tracked (step s .load).1 ∧
+    (Tracked s → (∀ t, Tracked (step s (.clock t)).1) ∧ Tracked (step s .wake).1 ∧ Tracked (step s .alrm).1 ∧
+      ∀ c l f, Tracked (step s (.pass c l f)).1) :=
+  ⟨tracked_loadSt s, fun ht => ⟨fun t => tracked_tick ht t, ht, tracked_alrmSt ht, fun c l f => tracked_passSt hwf ht c l f⟩⟩
+
+/-- **Earliest-due first, no starvation — one pass.**  If an entry `e` of channel `c` is due, a pass on `c`
+(any reports, any injected failure) starts an entry due no later than `e`; and either that is `e` itself, or `e`
+is still scheduled and the number of entries due no later than `e` has gone down by exactly one (the started
+message comes back strictly later than now: at its back-off time, or at now + SLEEP_SYSFAIL). -/
+theorem C15_hist_prompt (s : HSt) (hwf : WF s) (c : Chan) (e : Elt) (he : e ∈ (s.q c).toList) (hdue : e.dt ≤ s.clock)
+    (hage : ∀ m ∈ s.msgs, s.clock - m.birth < 4294967296) (letters : List Byte) (f : Fault) :
+    ∃ pe, started s c = some pe ∧ pe.dt ≤ e.dt ∧
+      (pe = e ∨ (e ∈ ((step s (.pass c letters f)).1.q c).toList ∧
+                 rank (step s (.pass c letters f)).1 c e.dt + 1 = rank s c e.dt)) :=
+  rank_passSt hwf he hdue (fun m hm => (C15_future s.clock m.birth c (hage m hm)).1) (by decide) letters f
+
+/-- **No starvation — bounded number of passes.**  A due entry `e` is started by one of the next `rank` passes
+on its channel (`rank` = number of entries due no later than `e`, itself included), whatever the reports. -/
+theorem C15_hist_no_starvation (s : HSt) (hwf : WF s) (c : Chan) (e : Elt) (he : e ∈ (s.q c).toList)
+    (hdue : e.dt ≤ s.clock) (hage : ∀ m ∈ s.msgs, s.clock - m.birth < 4294967296) (ls : Nat → List Byte) :
+    ∃ j, j < rank s c e.dt ∧ started (passes s c ls j) c = some e :=
+  let ⟨j, hj, h, _⟩ := no_starvation c e (by decide) (rank s c e.dt) s ls hwf he hdue
+    (fun m hm => (C15_future s.clock m.birth c (hage m hm)).1) (Nat.le_refl _)
+  ⟨j, hj, h⟩
+
+/-- **The expiring pass.**  A pass started when `recent > birth + lifetime`, answered with K/Z/D only (no open
+or unlink failure), finishes every recipient: the channel file is removed, the message is no longer scheduled on
+the channel, the other channel is untouched, and if that was the last channel the message is in pqdone. -/
+theorem C15_hist_expire (s : HSt) (hwf : WF s) (c : Chan) (letters : List Byte) (f : Fault) (pe : Elt) (m : Msg)
+    (hstart : started s c = some pe) (hm : s.find pe.id = some m)
+    (hold : s.clock > m.birth + s.lifetime) (hl : lettersKZD letters) (hf : f = .none ∨ f = .stat) :
+    ∃ m2, (step s (.pass c letters f)).1.find pe.id = some m2 ∧ m2.recs c = none ∧
+      m2.recs (other c) = m.recs (other c) ∧ pe.id ∉ ids ((step s (.pass c letters f)).1.q c) ∧
+      (m.recs (other c) = none → pe.id ∈ ids (step s (.pass c letters f)).1.done) := by
+  obtain ⟨q', hp⟩ := started_some hstart
+  obtain ⟨m2, h1, h2, h3, _, h5, h6, h7⟩ := expire_passSt hwf letters f hp hm hold hl hf
+  exact ⟨m2, h1, h2, h3, by show pe.id ∉ ids ((passSt s c letters f).q c); rw [h5]; exact h6, h7⟩
+
+/-- **The schedule survives a clean restart, at history level**: after TERM (`pqfinish`) and a new process
+(`pqstart`) each channel heap holds exactly the same entries (same message, same due time) as before. -/
+theorem C15_hist_restart (s : HSt) (hwf : WF s) (ht : Tracked s) (c : Chan) (e : Elt) :
+    e ∈ ((run s [.fin, .load]).q c).toList ↔ e ∈ (s.q c).toList := restart_mem hwf ht c e
+
+/-- **ALRM at history level**: every scheduled entry becomes due now, the same messages stay scheduled, nothing
+is lost, and every non-empty channel starts a message at the next pass. -/
+theorem C15_hist_alrm (s : HSt) (hwf : WF s) (c : Chan) :
+    WF (step s .alrm).1 ∧ (Tracked s → Tracked (step s .alrm).1) ∧
+    (∀ e ∈ ((step s .alrm).1.q c).toList, e.dt = s.clock) ∧ ids ((step s .alrm).1.q c) = ids (s.q c) ∧
+    ((s.q c).size ≠ 0 → (started (step s .alrm).1 c).isSome = true) := by
+  have h := C15_alrm s.clock (s.q c)
+  have hq : (step s .alrm).1.q c = pqrun s.clock (s.q c) := alrmSt_q s c
+  refine ⟨wf_alrmSt hwf, tracked_alrmSt, by rw [hq]; exact h.1, by rw [hq]; exact ids_pqrun _ _, ?_⟩
+  intro hne
+  unfold started
+  rw [hq]
+  have := h.2.2.2 hne
+  show (Option.map _ (passStart s.clock true (pqrun s.clock (s.q c)))).isSome = true
+  rw [Option.isSome_map]; exact this
+
+/-- the arithmetic behind the bound: an attempt made no later than `birth + lifetime` is rescheduled no later
+than `birth + (⌊√lifetime⌋ + skip)²` — also when the birth time lies in the future of the clock -/
+theorem C15_retry_le_bound (lifetime L : Int) (h32 : lifetime < 4294967296) (hL : IsSqrt lifetime L)
+    (t b : Int) (c : Chan) (h : t ≤ b + lifetime) : nextretry t b c ≤ expiryBound L b c := by
+  unfold expiryBound
+  rw [chanskip_eq]
+  by_cases hb : b ≤ t
+  · exact (C15_bounded t b lifetime L c hb h h32 hL).2
+  · unfold nextretry
+    rw [if_pos (by omega), chanskip_eq]
+    have := skip_pos c
+    obtain ⟨l0, _, _⟩ := hL
+    nlinarith
+
+/-- **Bounded time to expiry, over all fault-free histories.**  Invariant: every scheduled entry is due by
+`birth + (⌊√lifetime⌋ + skip)²` or is already due.  It is preserved by every history made of time advancing,
+wake-ups, ALRM, passes answered with K/Z/D, and clean restarts — together with well-formedness and
+nothing-is-lost. -/
+theorem C15_hist_bounded (s : HSt) (L : Int) (h32 : s.lifetime < 4294967296) (hL : IsSqrt s.lifetime L)
+    (hinv : DInv L s) (l : List BStep) (hk : allKZD l) : DInv L (runB s l) ∧ (runB s l).lifetime = s.lifetime :=
+  inv_runB l s hinv (fun t b c h => C15_retry_le_bound s.lifetime L h32 hL t b c h) hk
+
+/-- **Every message leaves the channel in bounded time** (spawners answering K/Z/D): in any state reached as in
+`C15_hist_bounded`, once the clock has reached `birth + (⌊√lifetime⌋ + skip)²` a scheduled message `e` is due,
+and within `rank` further passes on its channel (`rank` = entries due no later than it) it is started, that
+pass is the expiring one, and afterwards its channel file is gone and it is off the channel heap; if no file
+remains on the other channel it is in pqdone. -/
+theorem C15_hist_leaves (s : HSt) (L : Int) (hL : IsSqrt s.lifetime L) (hinv : DInv L s) (c : Chan) (e : Elt) (m : Msg)
+    (he : e ∈ (s.q c).toList) (hm : s.find e.id = some m) (hclock : expiryBound L m.birth c ≤ s.clock)
+    (hage : ∀ m ∈ s.msgs, s.clock - m.birth < 4294967296) (ls : Nat → List Byte) (hk : ∀ k, lettersKZD (ls k)) :
+    ∃ j, j < rank s c e.dt ∧ started (passes s c ls j) c = some e ∧
+      ∃ m2, (passes s c ls (j + 1)).find e.id = some m2 ∧ m2.recs c = none ∧
+        e.id ∉ ids ((passes s c ls (j + 1)).q c) ∧
+        (m2.recs (other c) = none → e.id ∈ ids (passes s c ls (j + 1)).done) := by
+  obtain ⟨hwf, _, hd⟩ := hinv
+  have hdue : e.dt ≤ s.clock := by
+    rcases hd c e he m hm with h | h
+    · omega
+    · exact h
+  obtain ⟨j, hj, hst, hwfj, hcj, hlj, hbj⟩ := no_starvation c e (by decide) (rank s c e.dt) s ls hwf he hdue
+    (fun m hm => (C15_future s.clock m.birth c (hage m hm)).1) (Nat.le_refl _)
+  obtain ⟨mj, hmj, hbirth⟩ := hbj e.id m hm
+  -- the bound lies beyond birth + lifetime
+  have hold : (passes s c ls j).clock > mj.birth + (passes s c ls j).lifetime := by
+    rw [hcj, hlj, hbirth]
+    have hb : expiryBound L m.birth c = m.birth + (L + skip c) * (L + skip c) := by unfold expiryBound; rw [chanskip_eq]
+    have := skip_pos c
+    obtain ⟨l0, _, l2⟩ := hL
+    have : s.lifetime < (L + skip c) * (L + skip c) := by nlinarith
+    omega
+  obtain ⟨q', hp⟩ := started_some hst
+  obtain ⟨m2, h1, h2, h3, _, h5, h6, h7⟩ := expire_passSt hwfj (ls j) .none hp hmj hold (hk j) (Or.inl rfl)
+  refine ⟨j, hj, hst, m2, h1, h2, ?_, ?_⟩
+  · show e.id ∉ ids ((passSt (passes s c ls j) c (ls j) .none).q c)
+    rw [h5]; exact h6
+  · intro ho; exact h7 (by rw [← h3]; exact ho)
+
 /-! ### Non-vacuity: concrete inputs meeting the hypotheses -/
 
 example : squareroot 1000000 = 1000 ∧ squareroot 999999 = 999 ∧ squareroot 4294967295 = 65535 := by decide
